@@ -51,6 +51,19 @@ def configs(tier):
         out.append((dict(name=name, procs=procs, jobs=jobs, script=script,
                          pool={}, oracle='c07', threads=False),
                     1 if not T else 2, 4000 if not T else 60000))
+    out.append((dict(name='2proc/second-thread-submits', procs=2, jobs=J1,
+                     script=S(1) + ['close', 'join'], pool={}, oracle='c07',
+                     second=True), 1 if not T else 2, 4000 if not T else 60000))
+    out.append((dict(name='2proc/empty-imap', procs=2,
+                     jobs=[('imap', 'tenfold', [])] + J1,
+                     script=S(2) + ['close', 'join'], pool={}, oracle='c07'),
+                1 if not T else 2, 4000 if not T else 60000))
+    out.append((dict(name='nothreads/hard-limit-during-drain', procs=1,
+                     jobs=[('apply', 'sleepy', 3600.0)],
+                     script=S(1) + ['pump:1', 'close', 'join'],
+                     pool=dict(timeout=1.5), oracle='c07', threads=False,
+                     horizon=120.0), 1 if not T else 2,
+                4000 if not T else 60000))
     if T:
         out.append((dict(name='1proc/1job/timers', procs=1, jobs=J1,
                          script=S(1) + ['close', 'join'], pool={},
